@@ -1056,7 +1056,19 @@ class C:
     @modifiers.kwoargs('k')
     def m(self, k=None, *args, **kwargs):
         return self.m(*args, **kwargs)
-for label, o in (('f', f), ('g', g), ('h', h), ('C().m', C().m)):
+def t(x, y=1): return x
+@modifiers.kwoargs('k')
+def f2(k=None, *args, **kwargs):
+    if k:
+        return f2(*args, **kwargs)
+    return t(*args, **kwargs)
+def f1(*args, **kwargs):
+    if args:
+        return f0(*args, **kwargs)
+    return f2(*args, **kwargs)
+def f0(*args, **kwargs):
+    return f1(*args, **kwargs)
+for label, o in (('f', f), ('g', g), ('h', h), ('C().m', C().m), ('f2', f2), ('f1', f1), ('f0', f0)):
     print(label, '|', inspect.signature(o), '|', sigtools.signature(o), flush=True)
 '''
 
@@ -1076,15 +1088,15 @@ def rt_self_forwarding_hint(req):
         path = fh.name
     try:
         try:
-            r = subprocess.run([sys.executable, '-W', 'ignore', path, core.REPO], capture_output=True, text=True, timeout=25, stdin=subprocess.DEVNULL)
+            r = subprocess.run([sys.executable, '-W', 'ignore', path, core.REPO], capture_output=True, text=True, timeout=12, stdin=subprocess.DEVNULL)
             lines = [l.split(' | ') for l in r.stdout.strip().split('\n') if l]
             if r.returncode != 0:
                 problems.append('self-forwarding-decorated: the retrieval raised: %s' % (r.stderr.strip().split('\n')[-1][:200],))
-            elif len(lines) != 4 or any(len(l) != 3 for l in lines) or any(l[1] != l[2] for l in lines if l[0] in ('f', 'C().m')):
+            elif len(lines) != 7 or any(len(l) != 3 for l in lines) or any(l[1] != l[2] for l in lines if l[0] in ('f', 'C().m')):
                 problems.append('self-forwarding-decorated: inspect / sigtools answers %r' % (lines,))
         except subprocess.TimeoutExpired as e:
             done = (e.stdout or b'').decode() if isinstance(e.stdout, bytes) else (e.stdout or '')
-            problems.append('self-forwarding-decorated: sigtools.signature of a kwoargs/posoargs/autokwoargs-decorated function that forwards to itself did not return within 25 s (answered so far: %r)' % (
+            problems.append('self-forwarding-decorated: sigtools.signature of a kwoargs/posoargs/autokwoargs-decorated function that forwards to itself did not return within 12 s (answered so far: %r)' % (
                 done.strip().split('\n')[-1:],))
     finally:
         os.unlink(path)
@@ -1149,3 +1161,63 @@ def rt_na_defaults(req):
 
 
 RT['na_defaults'] = rt_na_defaults
+
+
+# ----------------------------------------------------------------------------- stream `examine` (Model/Examine.lean)
+OPS = {}
+_EX_COUNT = [0]
+
+
+def line(req):
+    _, n, f, succ, hinted = req
+    return 'examine %d %d %s %s' % (n, f, '.'.join(str(x) for x in succ), '.'.join('1' if h else '0' for h in hinted))
+
+
+def parse_model(req, ml):
+    toks = ml.split()
+    if toks[0] == 'ok':
+        return ('ok', toks[1] if len(toks) > 1 else '')
+    return ('err', toks[1])
+
+
+def real_examine(req):
+    """the calls of `_autoforwards._examine_once` (function, depth of the guard stack, outcome) during
+    sigtools.signature(f_i), for a module whose functions forward *args / **kwargs to one another as the graph says"""
+    import sigtools
+    from sigtools import _autoforwards as AF
+    from . import progs
+    _, n, f, succ, hinted = req
+    L = ['from sigtools import modifiers', 'def t(x, y=1): return x']
+    for i, (s_, h) in enumerate(zip(succ, hinted)):
+        callee = 't' if s_ >= n else 'f%d' % s_
+        if h:
+            L += ["@modifiers.kwoargs('k%d')" % i, 'def f%d(k%d=None, *args, **kwargs):' % (i, i), '    return %s(*args, **kwargs)' % callee]
+        else:
+            L += ['def f%d(*args, **kwargs):' % i, '    return %s(*args, **kwargs)' % callee]
+    mod, fname = progs.load_module('\n'.join(L) + '\n')
+    log = []
+    orig = AF._examine_once
+
+    def traced(func, args, kwargs, examine):
+        nm = getattr(func, '__name__', '?')
+        nm = 't' if nm == 't' else nm[1:]
+        log.append('E%s@%d' % (nm, len(AF._being_examined.__dict__.get('funcs', []))))
+        try:
+            r = orig(func, args, kwargs, examine)
+        except AF.UnknownForwards:
+            log.append('U' + nm)
+            raise
+        log.append('K' + nm)
+        return r
+    AF._examine_once = traced
+    try:
+        with warnings.catch_warnings():
+            warnings.simplefilter('ignore')
+            sigtools.signature(getattr(mod, 'f%d' % f))
+    finally:
+        AF._examine_once = orig
+        progs.unload(fname)
+    return ('ok', ','.join(log))
+
+
+OPS['examine'] = real_examine
